@@ -1,11 +1,12 @@
 #!/bin/sh
-# MANIFEST.setup_cmd: regenerate coq/gen from /repo, build the whole Coq development (full .vo build).
+# MANIFEST.setup_cmd: regenerate coq/gen from /repo, build the whole Coq development (full .vo build, no -vos).
 set -e
-cd /verif
+D=$(cd "$(dirname "$0")" && pwd)
+cd "$D"
 mkdir -p coq/gen coq/run evidence replays
 for t in tools/translate/gen_*.py; do
   [ -f "$t" ] || continue
-  ( cd /repo && PYTHONPATH=/repo/py FORMAK_VERIF=1 PYTHONHASHSEED=0 MPLBACKEND=Agg /venv/bin/python /verif/$t /repo /verif/coq/gen ) || echo "translator $t failed (fail-closed file written)"
+  ( cd /repo && PYTHONPATH=/repo/py FORMAK_VERIF=1 PYTHONHASHSEED=0 MPLBACKEND=Agg /venv/bin/python "$D/$t" /repo "$D/coq/gen" ) || echo "translator $t failed (fail-closed file written)"
 done
 cd coq
 coq_makefile -f _CoqProject -o Makefile
